@@ -16,15 +16,30 @@ def delim_doc(rng):
     return wrap.replace("{}", inline) + "\n"
 
 
+def pair_doc(rng):
+    """delimiter runs of every length 1-5 opening and closing around text, inside and around links / images / emphasis"""
+    ch = rng.choice("~~~*_")
+    o, c = ch * rng.randrange(1, 6), ch * rng.randrange(1, 6)
+    x = rng.choice(["a", "a b", "x*y", "`c`", "[l](/v)", "![i](/s)", "a~b", "<b>"])
+    core = o + x + c
+    shapes = ["[{}](/u)", "![{}](/u)", "[{}][r]\n\n[r]: /u", "*{}*", "**{}**", "~~{}~~", "text {} more", "{}{}", "[{} tail](/u)", "[head {}](/u)",
+              "~~[x {}](/u)~~ more", "_{}_ [{}](/u)", "| {} |\n|---|", "# {}", "[[{}](/a)](/b)"]
+    return rng.choice(shapes).replace("{}", core) + "\n"
+
+
+def extra_doc(rng):
+    return pair_doc(rng) if rng.random() < 0.5 else delim_doc(rng)
+
+
 def pred(ts, nsrc, env):
     return propcheck.c02(ts)
 
 
 def run(ctx):
     return parserprop.run_generic(
-        ctx, "C02", "malformed-token-stream", pred, delim_doc,
+        ctx, "C02", "malformed-token-stream", pred, extra_doc,
         ["producer side (every block / inline rule pushes balanced, correctly levelled segments; delimiter pairs never cross) is not yet a theorem: it is carried by the pipeline correspondence and by the predicate evaluated on the implementation in this run (partial)"],
-        "correspondence and predicate on: seed corpus, mutations, container x leaf grammar, malformed stream, and delimiter soups (runs of * _ ~ brackets backticks links images in paragraph/heading/list/quote/table/link/image contexts) x standard and random configurations (rule subsets; rules2 all on)")
+        "correspondence and predicate on: seed corpus, mutations, container x leaf grammar, malformed stream, and delimiter pairs of every run length 1-5 inside and around links / images / emphasis / cells, delimiter soups (runs of * _ ~ brackets backticks links images in paragraph/heading/list/quote/table/link/image contexts) x standard and random configurations (rule subsets; rules2 all on)")
 
 
 def replay(body):
